@@ -371,3 +371,141 @@ Example C01_default_nonvacuous :
   construct (fun _ _ => true) ex_env (with_default ex_point (s2p "y") (PNum (NInt 3))) [(s2p "x", PNum (NInt 1))]
     = Ok (PStruct (s2p "Point") [(s2p "y", PNum (NFlt 3 0)); (s2p "x", PNum (NInt 1))]).
 Proof. repeat split; vm_compute; reflexivity. Qed.
+
+(* ---- generated layer, round 4: Structure.__init__ / _set_defaults re-translated from structures.py on every run (harness/genmods/py2v_init.py -> Gen/InitSrc.v); bridging lemmas in Struct/InitSrcProofs.v ---- *)
+From TP Require Import Base.PyOpsInit Gen.InitSrc Struct.InitModel Struct.InitSrcProofs.
+
+(* for every class description and keyword list in init_dom (signature order), the source's __init__ (fail-fast) yields exactly Instance.construct: the instance state and the exception class *)
+Theorem C01_src_init_is_construct :
+  forall (re_match : N -> pystr -> bool) (e : env) (msg_of : pystr -> pyval -> exn -> pystr)
+           (bind_msg hook_msg : pystr) (repr_str : pystr -> pystr) (dumps : list pystr -> pystr)
+           (sig_order : kwargs -> kwargs) (c : classdef) (kw : kwargs),
+         init_dom c kw = true ->
+         sig_order (bound_of c kw) = bound_of c kw ->
+         view c
+           (Structure__init (init_heap c true)
+              (MW re_match e msg_of bind_msg hook_msg repr_str dumps sig_order c) 
+              (PTuple []) (kw_dict kw) []) = construct re_match e c kw.
+Proof. exact generated_init_is_construct. Qed.
+
+(* the setattr the constructor calls is the generated Structure.__setattr__ followed by the descriptor hand-over *)
+Theorem C01_src_init_setattr :
+  forall (re_match : N -> pystr -> bool) (e : env) (msg_of : pystr -> pyval -> exn -> pystr)
+           (c : classdef) (n : pystr) (v : pyval) (s : istate),
+         ordinary n = true ->
+         model_setattr re_match e msg_of c (PStr n) v s =
+         (let (s', o) :=
+            match
+              StructGuards.Structure__setattr (StructGuardProofs.struct_heap c (instantiated s))
+                (PStr n) v
+            with
+            | Ok (Some vr) => StructGuardProofs.handover re_match e c (instantiated s) s n vr
+            | Ok None => (s, Done)
+            | Raise x => (s, Raised x)
+            end in
+          match o with
+          | Done => (s', inl tt)
+          | Raised x => (s', inr {| x_cls := x; x_arg := msg_of n v x |})
+          end).
+Proof. exact model_setattr_is_source. Qed.
+
+(* the fail-fast assignment loop of the source is run_sets with the exception re-wrapped, class preserved *)
+Theorem C01_src_init_loop :
+  forall (re_match : N -> pystr -> bool) (e : env) (msg_of : pystr -> pyval -> exn -> pystr)
+           (bind_msg hook_msg : pystr) (repr_str : pystr -> pystr) (dumps : list pystr -> pystr)
+           (sig_order : kwargs -> kwargs) (c : classdef) (ff : bool) (l : kwargs) 
+           (s : istate),
+         names_plain l = true ->
+         no_undefined l = true ->
+         inv s ->
+         for_acc
+           (ff_body re_match e msg_of bind_msg hook_msg repr_str dumps sig_order c (init_heap c ff))
+           (pairs l) tt s =
+         (let (s', s0) := run_sets re_match e msg_of c l s in
+          match s0 with
+          | inl _ => (s', inl tt)
+          | inr x =>
+              (s', inr (rewrap re_match e msg_of bind_msg hook_msg repr_str dumps sig_order c x))
+          end).
+Proof. exact ff_loop. Qed.
+
+(* an argument that is Undefined is not assigned *)
+Theorem C01_src_init_skips_undefined :
+  forall (re_match : N -> pystr -> bool) (e : env) (msg_of : pystr -> pyval -> exn -> pystr)
+           (bind_msg hook_msg : pystr) (repr_str : pystr -> pystr) (dumps : list pystr -> pystr)
+           (sig_order : kwargs -> kwargs) (c : classdef) (h : PyObj.heap) 
+           (n : pystr) (v : pyval) (s : istate),
+         undefined_ref v = true ->
+         ff_body re_match e msg_of bind_msg hook_msg repr_str dumps sig_order c h (PStr n, v) tt s =
+         (s, inl tt).
+Proof. exact ff_body_skips_undefined. Qed.
+
+(* _set_defaults of the source assigns exactly defaults_of, in order *)
+Theorem C01_src_set_defaults :
+  forall (re_match : N -> pystr -> bool) (e : env) (msg_of : pystr -> pyval -> exn -> pystr)
+           (bind_msg hook_msg : pystr) (repr_str : pystr -> pystr) (dumps : list pystr -> pystr)
+           (sig_order : kwargs -> kwargs) (c : classdef) (ff : bool) (dl : list (pystr * pyval))
+           (s : istate),
+         (forall p : pystr * pyval,
+          In p dl ->
+          exists fd : fdecl,
+            find_field (c_fields c) (fst p) = Some fd /\ fd_default fd = Some (snd p)) ->
+         Structure__set_defaults (init_heap c ff)
+           (MW re_match e msg_of bind_msg hook_msg repr_str dumps sig_order c)
+           (PList (map PStr (map fst dl))) (fields_map c) s = run_sets re_match e msg_of c dl s.
+Proof. exact set_defaults_run. Qed.
+
+(* the comprehension that selects the default-bearing fields *)
+Theorem C01_src_init_defaults_selected :
+  forall (c : classdef) (ff : bool) (kw : list (pystr * pyval)) (B : pyval) 
+           (fs : list fdecl) (s : istate),
+         (forall fd : fdecl,
+          In fd fs ->
+          find_field (c_fields c) (fd_name fd) = Some fd /\
+          fd_default fd <> Some PNone /\
+          PyOps2.py_in_dyn (PStr (fd_name fd)) B = Ok (alist_has kw (fd_name fd))) ->
+         filterMM (dflt_pick c (init_heap c ff) B) (fpairs fs) s =
+         (s, inl (map PStr (map fst (dflt kw fs)))).
+Proof. exact comp_defaults. Qed.
+
+(* extra keywords are assigned first and removed from the bound arguments *)
+Theorem C01_src_init_extras_first :
+  forall (re_match : N -> pystr -> bool) (e : env) (msg_of : pystr -> pyval -> exn -> pystr)
+           (bind_msg hook_msg : pystr) (repr_str : pystr -> pystr) (dumps : list pystr -> pystr)
+           (sig_order : kwargs -> kwargs) (c : classdef) (kw : kwargs),
+         alist_has (bound_of c kw) n_kwargs = false ->
+         (' c0 <~ lift (PyOps2.py_in_dyn (PStr (s2p "kwargs")) (bound_dict c kw));;
+          (if c0
+           then
+            ' t23 <~ lift (PyOps2.py_getitem_dyn (bound_dict c kw) (PStr (s2p "kwargs")));;
+            ' t24 <~ lift (PyOpsVersioned.py_dict_items t23);;
+            ' _ <~
+            for_acc
+              (fun '(v_name_25, v_val_26) (_ : unit) =>
+               ' _ <~
+               w_setattr (MW re_match e msg_of bind_msg hook_msg repr_str dumps sig_order c)
+                 v_name_25 v_val_26;; ret tt) t24 tt;;
+            ' t27 <~ lift (PyOpsVersioned.py_delitem (bound_dict c kw) (PStr (s2p "kwargs")));;
+            ret t27
+           else ret (bound_dict c kw))) [] =
+         (let (s1, s) := run_sets re_match e msg_of c (extras_of c kw) [] in
+          match s with
+          | inl _ => (s1, inl (PDict (pairs (bound_of c kw))))
+          | inr x => (s1, inr x)
+          end).
+Proof. exact extras_phase. Qed.
+
+(* the source assigns in SIGNATURE order, the hand model in caller order: with two invalid arguments the exception class differs (side condition sig_order of C01_src_init_is_construct) *)
+Theorem C01_src_init_order_witness :
+  ex_run (rev (A:=pystr * pyval)) ex_bad = Raise TypeError /\
+         construct (fun (_ : N) (_ : pystr) => true) [ex_cls] ex_cls ex_bad = Raise ValueError.
+Proof. exact order_disagreement. Qed.
+
+Print Assumptions C01_src_init_is_construct.
+Print Assumptions C01_src_init_setattr.
+Print Assumptions C01_src_init_loop.
+Print Assumptions C01_src_init_skips_undefined.
+Print Assumptions C01_src_set_defaults.
+Print Assumptions C01_src_init_defaults_selected.
+Print Assumptions C01_src_init_extras_first.
+Print Assumptions C01_src_init_order_witness.
